@@ -460,7 +460,7 @@ META = {
                   '(with_suffix, name, /, resolve, relative_to) and str.replace are uninterpreted functions shared by the '
                   'two executions. Unverified and named: which items reach these calls (C22), the plan_subroutine / '
                   'transform_subroutine pairs of item-creating and renaming transformations (DuplicateKernel, '
-                  'DependencyTransformation, ...), write_plan, the convert/plan CLI.',
+                  'DependencyTransformation, ...), write_plan, the convert/plan CLI. Bounded, never counted as proved: the real `loki-transform plan` and `convert` click commands with identical arguments on a two-directory project, header inside / outside the --source tree (replay/C24.py --cli): the three plan lists against the files written.',
     'trusted_base': ['pyvc engine', 'pathlib (uninterpreted, shared between the two executions)'],
     'assumptions': ['items are truthy objects', 'the file system does not change between planning and conversion',
                     'termination not proved'],
